@@ -57,6 +57,7 @@ type job struct {
 	data    []byte
 	maxCuts int
 	seed    int64
+	cuts    []int // opaque ASCII files: header bytes and token boundaries (nil: derive from the cells)
 }
 
 // CutPoints: every byte offset 0..len-1 for binary and framed files; for
@@ -133,7 +134,12 @@ func runJob(j job) ([]interface{}, error) {
 		l.Full = Outcome{Kind: "timeout", Mesh: NullMesh()}
 	}
 	l.FullPos, l.PosOk = IntPositions(l.Full.Mesh)
-	cuts := CutPoints(l)
+	cuts := j.cuts
+	if cuts == nil {
+		cuts = CutPoints(l)
+	} else {
+		l.Sampled = true // the specification cannot re-derive the token boundaries of a file without cell table
+	}
 	if j.maxCuts > 0 && len(cuts) > j.maxCuts {
 		l.Sampled = true
 		rng := rand.New(rand.NewSource(j.seed))
@@ -282,37 +288,49 @@ func RunCases(in, out string, par, maxCuts int, seed int64) error {
 	return runJobs(jobs, out, par)
 }
 
-// asciiBoundaryCells: cell table of a real ASCII file without abstract
-// content: one required cell up to the last non-blank byte, trailing blanks
-// as optional framing, and one cell boundary at every token boundary of the
-// body so that CutPoints yields exactly the token boundaries.
+// opaqueCells: cell table of a real file without abstract content: the
+// header, one required cell up to the last non-blank byte, trailing blanks as
+// optional framing. opaqueAsciiCuts lists the cut points of the property's
+// quantifier for such a file: every header byte and every token boundary.
 func opaqueCells(data []byte, ascii bool, bodyStart int) []refenc.Cell {
+	if len(data) == 0 {
+		return []refenc.Cell{}
+	}
 	if !ascii {
-		if len(data) == 0 {
-			return []refenc.Cell{}
-		}
 		return []refenc.Cell{{K: "H", O: 0, S: len(data), G: "hdr"}}
+	}
+	isSp := func(b byte) bool { return b == ' ' || b == '\n' || b == '\r' || b == '\t' }
+	end := len(data)
+	for end > bodyStart && isSp(data[end-1]) {
+		end--
 	}
 	cells := []refenc.Cell{}
 	if bodyStart > 0 {
 		cells = append(cells, refenc.Cell{K: "H", O: 0, S: bodyStart, G: "hdr"})
 	}
-	isSp := func(b byte) bool { return b == ' ' || b == '\n' || b == '\r' || b == '\t' }
-	i := bodyStart
-	for i < len(data) {
-		j := i
-		sp := isSp(data[i])
-		for j < len(data) && isSp(data[j]) == sp {
-			j++
-		}
-		k := "D"
-		if sp {
-			k = "S"
-		}
-		cells = append(cells, refenc.Cell{K: k, O: i, S: j - i, G: "body"})
-		i = j
+	if end > bodyStart {
+		cells = append(cells, refenc.Cell{K: "D", O: bodyStart, S: end - bodyStart, G: "body"})
+	}
+	if len(data) > end {
+		cells = append(cells, refenc.Cell{K: "S", O: end, S: len(data) - end, G: "body"})
 	}
 	return cells
+}
+
+func opaqueAsciiCuts(data []byte, bodyStart int) []int {
+	isSp := func(b byte) bool { return b == ' ' || b == '\n' || b == '\r' || b == '\t' }
+	cuts := []int{}
+	for k := 0; k < bodyStart && k < len(data); k++ {
+		cuts = append(cuts, k)
+	}
+	for k := bodyStart; k < len(data); k++ {
+		if k == bodyStart || isSp(data[k]) != isSp(data[k-1]) {
+			if k >= bodyStart && (len(cuts) == 0 || cuts[len(cuts)-1] != k) {
+				cuts = append(cuts, k)
+			}
+		}
+	}
+	return cuts
 }
 
 // RunFiles cuts real files (repository test models, output of polyform's own
@@ -361,9 +379,13 @@ func RunFiles(paths []string, out string, par, maxCuts int, seed int64) error {
 				cells = append(cells, refenc.Cell{K: "H", O: 0, S: slen, G: "hdr"})
 			}
 		}
-		jobs = append(jobs, job{data: data, maxCuts: maxCuts, seed: seed + int64(i),
+		jb := job{data: data, maxCuts: maxCuts, seed: seed + int64(i),
 			line: fileLine{K: "file", F: f, Name: filepath.Base(p), Len: len(data), SLen: slen, Cells: cells,
-				Blocks: [][]int{}, Ascii: ascii, Opaque: true}})
+				Blocks: [][]int{}, Ascii: ascii, Opaque: true}}
+		if ascii {
+			jb.cuts = opaqueAsciiCuts(data, bodyStart)
+		}
+		jobs = append(jobs, jb)
 	}
 	return runJobs(jobs, out, par)
 }
